@@ -641,11 +641,24 @@ Theorem refuse_one l q : length (refuse l q) = 1. Proof. reflexivity. Qed.
 
 (* ====================== listener size limits (C09) ====================== *)
 Lemma client_udp_size_ge m : (512 <= client_udp_size m)%N.
-Proof. unfold client_udp_size. destruct (_ <? 512)%N eqn:E; [lia|apply N.ltb_ge in E; exact E]. Qed.
+Proof.
+  unfold client_udp_size, max_udp_payload. cbv zeta.
+  destruct (advertised_size m <? 512)%N eqn:E; [cbn; lia|]. apply N.ltb_ge in E.
+  destruct (65507 <? advertised_size m)%N; lia.
+Qed.
+
+(* never more than the client advertised (floor 512), never more than a datagram can carry *)
+Lemma client_udp_size_le m : (client_udp_size m <= N.max 512 (advertised_size m))%N /\ (client_udp_size m <= 65507)%N.
+Proof.
+  unfold client_udp_size, max_udp_payload. cbv zeta.
+  destruct (advertised_size m <? 512)%N eqn:E.
+  - apply N.ltb_lt in E. cbn. lia.
+  - apply N.ltb_ge in E. destruct (65507 <? advertised_size m)%N eqn:E2; [apply N.ltb_lt in E2|apply N.ltb_ge in E2]; lia.
+Qed.
 
 Lemma client_udp_size_no_opt m : has_opt m = false -> client_udp_size m = 512%N.
 Proof.
-  unfold client_udp_size, has_opt. intros H.
+  unfold client_udp_size, advertised_size, has_opt. intros H.
   assert (forall acc, fold_left (fun a r => if is_opt r then r_class r else a) (m_ar m) acc = acc) as ->.
   { induction (m_ar m) as [|r rs IH]; intros acc; [reflexivity|]. cbn in H. apply orb_false_iff in H. destruct H as [H1 H2].
     cbn [fold_left]. rewrite H1. now apply IH. }
